@@ -500,7 +500,12 @@ fn pretty_print_rustfmt(tokens: TokenStream) -> String {
         verif::point("fmt:waited");
         if let Ok(output) = output {
             if written && output.status.success() {
-                return String::from_utf8(output.stdout).unwrap();
+                // A formatter that succeeds without printing the program did not format it.
+                if let Ok(text) = String::from_utf8(output.stdout) {
+                    if !text.trim().is_empty() {
+                        return text;
+                    }
+                }
             }
         }
     }
